@@ -99,7 +99,7 @@ class Engine(object):
         self.samples = []
         if mode == 'symbolic':
             self.solver = z3.Solver()
-            self.solver.set('timeout', timeout_ms)
+            self._limit(self.solver, timeout_ms)
         self._reset_path()
 
     # ------------------------------------------------------------------
@@ -118,7 +118,14 @@ class Engine(object):
         self.var_bounds = {}
         if self.mode == 'symbolic':
             self.solver.reset()
-            self.solver.set('timeout', self.timeout_ms)
+            self._limit(self.solver, self.timeout_ms)
+
+    # Solver budgets are z3 resource limits (rlimit), not wall-clock timeouts: verdicts are
+    # deterministic and do not flip when all cores are busy (about 3.5M units per second).
+    RL_PER_MS = 3500
+
+    def _limit(self, solver, ms):
+        solver.set('rlimit', int(ms * self.RL_PER_MS))
 
     def _check(self, *assumptions):
         t = time.time()
@@ -216,10 +223,12 @@ class Engine(object):
                 raise EngineError('nondeterministic replay (expected value decision)')
             self._add(cond if d.taken else z3.Not(cond))
             return d.taken
-        self.solver.set('timeout', min(self.timeout_ms, self.branch_ms))
+        self._limit(self.solver, min(self.timeout_ms, self.branch_ms))
         can_t = self._check(cond) != z3.unsat
-        can_f = self._check(z3.Not(cond)) != z3.unsat
-        self.solver.set('timeout', self.timeout_ms)
+        # if cond is infeasible its negation is implied (pc is feasible by construction;
+        # an infeasible pc is caught by the vacuity guard in prove)
+        can_f = True if not can_t else self._check(z3.Not(cond)) != z3.unsat
+        self._limit(self.solver, self.timeout_ms)
         if not can_t and not can_f:
             raise PathEnd('infeasible')
         d = _Decision('b')
@@ -412,9 +421,9 @@ class Engine(object):
         if r == z3.unknown:
             # a short incremental attempt, then a fresh solver (full preprocessing)
             backend = 'z3'
-            self.solver.set('timeout', min(self.timeout_ms, self.quick_ms))
+            self._limit(self.solver, min(self.timeout_ms, self.quick_ms))
             r = self._check(neg)
-            self.solver.set('timeout', self.timeout_ms)
+            self._limit(self.solver, self.timeout_ms)
             if r == z3.sat:
                 if self._has_bitops:
                     r = z3.unknown   # integer side over-approximates bit operations
@@ -490,7 +499,7 @@ class Engine(object):
 
     def _fresh_check(self, neg):
         s = z3.Solver()
-        s.set('timeout', self.timeout_ms)
+        self._limit(s, self.timeout_ms)
         for c in self.pc:
             s.add(c)
         s.add(neg)
@@ -506,7 +515,7 @@ class Engine(object):
         t = time.time()
         try:
             terms = [z3.simplify(c) for c in self.pc] + [z3.simplify(neg)]
-            ans, m, W = bv.check(terms, self.var_bounds, self.timeout_ms)
+            ans, m, W = bv.check(terms, self.var_bounds, int(self.timeout_ms * self.RL_PER_MS))
         except bv.NotTranslatable as e:
             self._bv_reason = str(e)
             return z3.unknown, None
